@@ -68,7 +68,7 @@ let rec put_expr e = match e with
 let rec get_tset x = match lst x with
   | [A "sym"; op; s] -> TSym (get_z op, get_z s)
   | [A "named"; i] -> TNamed (get_z i)
-  | [A "compl"; s] -> TCompl (get_tset s)
+  | [A "compl"; i; s] -> TCompl (get_z i, get_tset s)
   | [A "union"; l] -> TUnion (get_list get_tset l)
   | [A "inter"; l] -> TInter (get_list get_tset l)
   | _ -> failwith "tset"
@@ -101,6 +101,6 @@ let rec eval_tset_terms (t : int) (sets : tset list) (fuel : int) (s : tset) : i
   match s with
   | TSym (_, sym) -> [int_of_z sym]
   | TNamed i -> eval_tset_terms t sets (fuel - 1) (Stdlib.List.nth sets (int_of_z i))
-  | TCompl x -> let v = eval_tset_terms t sets fuel x in Stdlib.List.filter (fun a -> not (Stdlib.List.mem a v)) all
+  | TCompl (_, x) -> let v = eval_tset_terms t sets fuel x in Stdlib.List.filter (fun a -> not (Stdlib.List.mem a v)) all
   | TUnion l -> let vs = Stdlib.List.concat_map (eval_tset_terms t sets fuel) l in Stdlib.List.filter (fun a -> Stdlib.List.mem a vs) all
   | TInter l -> Stdlib.List.filter (fun a -> Stdlib.List.for_all (fun x -> Stdlib.List.mem a (eval_tset_terms t sets fuel x)) l) all
